@@ -287,6 +287,8 @@ func archive(workerID string, seed *models.Item) {
 					return
 				}
 
+				verifhook.AtKV("arch.resp", seed.GetID(), req.URL.String(), resp.StatusCode)
+
 				discarded := false
 				discardReason := ""
 				if client.DiscardHook == nil {
